@@ -48,6 +48,11 @@ def menu_item(rng, objs, ident, version, uniq):
     pre = [o for o in mine if o.state == 'pre']
     act = [o for o in mine if o.state == 'active']
     name = 'b-%s-%d' % (ident[0], next(uniq))
+    if rng.random() < 0.04:
+        # text outside ASCII (rig.UTF8_MARKER): in an identifier that does not exist, or in the name of a new object
+        if rng.random() < 0.5:
+            return 'F_notfound_utf8', op_get('id-' + rig.UTF8_MARKER)
+        return 'register', op_register('sym', secret_sym(FIXED), sym_attrs(length=256, masks=ALL_MASKS, names=[name + rig.UTF8_MARKER]))
     if k == 0:
         return 'register', op_register('sym', secret_sym(FIXED), sym_attrs(length=256, masks=ALL_MASKS, names=[name]))
     if k == 1:
